@@ -12,7 +12,14 @@ from checks import knn_gen as G
 PROPERTY = "C02"
 LEAN_MODULES = ["TapkeeVerif.Props.C02"]
 LEAN_EXES = ["model_c02"]
-REQUIRED_THEOREMS = []
+REQUIRED_THEOREMS = [
+    "TapkeeVerif.Knn.isExactKnn_iff",
+    "TapkeeVerif.Knn.brute_exact",
+    "TapkeeVerif.Knn.cover_wrapper_exact",
+    "TapkeeVerif.Knn.vptree_build_inv",
+    "TapkeeVerif.Knn.vptree_search_exact",
+    "TapkeeVerif.Knn.three_methods_agree",
+]
 METHODS = ["brute", "vptree", "covertree"]
 
 
@@ -278,8 +285,10 @@ def correspond(ctx):
         "code computes are exact and the driver's integer recomputation of every distance is the same number",
         "the vantage-point stream is supplied through CUSTOM_UNIFORM_RANDOM_FUNCTION (multiples of 2^-20); theorems hold "
         "for every stream",
-        "std::nth_element and std::priority_queue are modelled by their postconditions (any admissible outcome); the "
-        "executable model instance uses a stable sort / first-maximum pop, compared at the level of sorted distance lists",
-        "cover tree: the query (descend/brute_nearest) is not run in the model; its result is certificate-checked per run "
-        "against {j | d(i,j) <= k-th distance} and the model of the wrapper runs on the real candidate sets",
+        "std::nth_element, std::partial_sort and std::priority_queue are modelled by their postconditions (theorems hold for "
+        "any admissible outcome); the executable model instance uses a stable sort / first-maximum pop and is compared at the "
+        "level of sorted distance lists (brute, VP-tree) resp. entry by entry (cover wrapper: std::pair's operator< is total)",
+        "cover tree: the batch query (descend/brute_nearest) and batch_create are not modelled; the query's result is "
+        "certificate-checked on every run (CandsOk, the hypothesis of cover_wrapper_exact, and equality with "
+        "{j | d(i,j) <= (k+1)-th distance}) and the model of the wrapper runs on the real candidate sets",
     ]
